@@ -132,6 +132,22 @@ pub fn dispatch(op: &str, a: &[&str]) -> Option<String> {
             let x = arg_i(a[1]);
             ok(res_t(do_fmt!(key.as_str(), kind.as_str(), w, x).as_bytes()))
         }
+        "u.rt_str" => {
+            let x = arg_u(a[0]);
+            match BigUint::from_str_radix(&x.to_str_radix(radix(a[1])), radix(a[1])) {
+                Ok(r) => ok(res_u(&r)),
+                Err(e) => perr(e),
+            }
+        }
+        "i.rt_str" => {
+            let x = arg_i(a[0]);
+            match BigInt::from_str_radix(&x.to_str_radix(radix(a[1])), radix(a[1])) {
+                Ok(r) => ok(res_i(&r)),
+                Err(e) => perr(e),
+            }
+        }
+        "u.rt_radix_le" => opt(BigUint::from_radix_le(&arg_u(a[0]).to_radix_le(radix(a[1])), radix(a[1])), |r| ok(res_u(r))),
+        "u.rt_radix_be" => opt(BigUint::from_radix_be(&arg_u(a[0]).to_radix_be(radix(a[1])), radix(a[1])), |r| ok(res_u(r))),
         #[cfg(num_bigint_verif)]
         "h.to_radix_digits_le" => ok(res_b(&num_bigint::verif::convert::to_radix_digits_le(&arg_u(a[0]), radix(a[1])))),
         #[cfg(num_bigint_verif)]
